@@ -18,6 +18,9 @@ import (
 	"github.com/tmpim/casket/caskethttp/header"
 	"github.com/tmpim/casket/caskethttp/httpserver"
 	casklog "github.com/tmpim/casket/caskethttp/log"
+	"github.com/tmpim/casket/caskethttp/mime"
+	"github.com/tmpim/casket/caskethttp/requestid"
+	"github.com/tmpim/casket/caskethttp/status"
 	"github.com/tmpim/casket/caskethttp/templates"
 	"github.com/tmpim/casket/caskettls"
 	"github.com/tmpim/casket/zzverif/verifrt"
@@ -164,6 +167,7 @@ func zzGunzip12(body []byte) ([]byte, bool) {
 
 type zzWrappers struct {
 	log, header, errors, debug, gzip, templates bool
+	extras                                      bool // request_id, status (a rule for another path) and mime (sets the type for .html)
 }
 
 func zzServer(b *zzBehaviour, useLog, useHeader, useErrors, debug bool) *httpserver.Server {
@@ -193,6 +197,15 @@ func zzServerWith(b *zzBehaviour, wr zzWrappers) *httpserver.Server {
 	if useErrors {
 		site.AddMiddleware(func(next httpserver.Handler) httpserver.Handler {
 			return caskerrors.ErrorHandler{Next: next, Log: httpserver.NewTestLogger(&sink), Debug: debug}
+		})
+	}
+	if wr.extras {
+		site.AddMiddleware(func(next httpserver.Handler) httpserver.Handler { return requestid.Handler{Next: next} })
+		site.AddMiddleware(func(next httpserver.Handler) httpserver.Handler {
+			return status.Status{Next: next, Rules: []httpserver.HandlerConfig{status.NewRule("/gone", 410)}}
+		})
+		site.AddMiddleware(func(next httpserver.Handler) httpserver.Handler {
+			return mime.Mime{Next: next, Configs: mime.Config{Extensions: map[string]string{".html": "text/html"}}}
 		})
 	}
 	if wr.templates {
@@ -268,8 +281,9 @@ func VerifH12Wrapped() {
 	if len(b.chunks) > 0 {
 		b.copies = verifrt.Bool("body-sent-with-io-copy")
 	}
-	wr := zzWrappers{header: verifrt.Bool("header"), errors: verifrt.Bool("errors"), gzip: verifrt.Bool("gzip"), templates: verifrt.Bool("templates")}
-	verifrt.Assume(wr.gzip || wr.templates)
+	wr := zzWrappers{header: verifrt.Bool("header"), errors: verifrt.Bool("errors"), gzip: verifrt.Bool("gzip"), templates: verifrt.Bool("templates"),
+		extras: verifrt.Bool("request_id-status-mime")}
+	verifrt.Assume(wr.gzip || wr.templates || wr.extras)
 	wr.debug = wr.errors && verifrt.Bool("debug")
 	if wr.templates {
 		zzStubTemplates()
